@@ -1050,6 +1050,11 @@ func runC01(c *Ctx) {
 			}
 		}
 	})
+	// the loop looks at the queue before it waits for the first time: Stop leaves queued chunks in place and a
+	// later Start must forward them without a new arrival (a loop that waits first strands them)
+	if pos, bad := routerLoopWaitsFirst(start, pc, loopFn); bad {
+		o.Fail(pos, "the forwarding loop waits before it has looked at the queue: chunks queued before Start (left by a Stop) are forwarded only when something else arrives")
+	}
 	for _, e := range cg.In[pc] {
 		o.Site(e.Site.Pos(), "processChunks called from %s", fname(e.From))
 		inLoopFn := loopFn != nil && (e.From == loopFn || isIn(e.From, loopFn))
@@ -1515,4 +1520,44 @@ func callsQueueHead(in ssa.Instruction) bool {
 		}
 	})
 	return found
+}
+
+// routerLoopWaitsFirst: the router's forwarding goroutine (the closure or method Start launches) reaches a blocking
+// wait on some path before its first call of processChunks.
+func routerLoopWaitsFirst(start, pc, loopFn *ssa.Function) (token.Pos, bool) {
+	body := loopFn
+	if body == nil {
+		instrsOfU(start, func(in ssa.Instruction) {
+			if g, ok := in.(*ssa.Go); ok {
+				if mc, ok := g.Call.Value.(*ssa.MakeClosure); ok {
+					body, _ = mc.Fn.(*ssa.Function)
+				} else if sc := g.Call.StaticCallee(); sc != nil && inModule(sc) {
+					body = sc
+				}
+			}
+		})
+	}
+	if body == nil {
+		return token.NoPos, false
+	}
+	lps, okL := enumIterPathsU(body, 50000)
+	if !okL {
+		return token.NoPos, false
+	}
+	for pi := range lps {
+		pt := &lps[pi]
+		firstWait, firstPC := -1, -1
+		for idx, in := range pt.Instrs {
+			if sel, ok := in.(*ssa.Select); ok && sel.Blocking && firstWait < 0 {
+				firstWait = idx
+			}
+			if cl, ok := in.(*ssa.Call); ok && cl.Call.StaticCallee() == pc && firstPC < 0 {
+				firstPC = idx
+			}
+		}
+		if firstWait >= 0 && (firstPC < 0 || firstPC > firstWait) {
+			return pt.Instrs[firstWait].Pos(), true
+		}
+	}
+	return token.NoPos, false
 }
